@@ -121,7 +121,7 @@ def run_property(prop, tier, seed):
 
 def _run_property(prop, tier, seed, cfg, sdir, t0):
     kf = known_findings()
-    baseline = load_json(os.path.join(VERIF, 'baseline', 'obligations.json'), {})
+    baseline = {} if os.environ.get('VERIF_REBASELINE') else load_json(os.path.join(VERIF, 'baseline', 'obligations.json'), {})
     units = cfg.get('units', [])
     seeds = [None] if tier == 'quick' else [None, seed * 3 + 1, seed * 3 + 2]
     rlimit = 30 if tier == 'quick' else 90
